@@ -61,7 +61,7 @@ import (
 
 func TestMain(m *testing.M) { ev.Main(m) }
 
-var rec = ev.For("C35", "request type x token kind {null, unknown, closed, not-activated, foreign} x value seed x aimed/unaimed; non-trivial = the service is one this server implements (with a valid session it would act); distinct by hash of (type, token, seed, aimed)")
+var rec = ev.For("C35", "request type x token kind {null, unknown, closed, not-activated, foreign, near-miss of the live session's token (same number in another namespace / as string / as opaque, number +-1, one bit flipped)} x value seed x aimed/unaimed; non-trivial = the service is one this server implements (with a valid session it would act); distinct by hash of (type, token, seed, aimed)")
 
 // ---------------------------------------------------------------------------
 // domain
@@ -101,7 +101,7 @@ var sessionErrors = map[ua.StatusCode]bool{
 	ua.StatusBadSecurityChecksFailed: true,
 }
 
-var tokenKinds = []string{"null", "unknown", "closed", "not-activated", "foreign"}
+var tokenKinds = []string{"null", "unknown", "closed", "not-activated", "foreign", "near-miss"}
 
 type caseT struct {
 	Type  string `json:"type"`
@@ -522,6 +522,43 @@ func (f *fixtureT) unknownToken(seed int) *ua.NodeID {
 	}
 }
 
+// nearMiss returns a token that was never issued but resembles the token of
+// the live, activated session of this connection: the same identifier in
+// another namespace, another identifier type built from the same number, the
+// neighbouring numbers, one flipped bit (added after seeded change C35-A).
+func (f *fixtureT) nearMiss(seed int) *ua.NodeID {
+	l := f.legit
+	if l == nil {
+		return nil
+	}
+	for i := 0; i < 16; i++ {
+		var n *ua.NodeID
+		id := l.IntID()
+		switch (seed + i) % 8 {
+		case 0:
+			n = ua.NewNumericNodeID(1, id)
+		case 1:
+			n = ua.NewNumericNodeID(uint16(2+seed%60000), id)
+		case 2:
+			n = ua.NewStringNodeID(l.Namespace(), fmt.Sprint(id))
+		case 3:
+			n = ua.NewNumericNodeID(l.Namespace(), id+1)
+		case 4:
+			n = ua.NewNumericNodeID(l.Namespace(), id-1)
+		case 5:
+			n = ua.NewNumericNodeID(l.Namespace(), id^(1<<uint(seed%32)))
+		case 6:
+			n = ua.NewByteStringNodeID(l.Namespace(), []byte{byte(id), byte(id >> 8), byte(id >> 16), byte(id >> 24)})
+		default:
+			n = ua.NewStringNodeID(l.Namespace(), l.String())
+		}
+		if n.String() != l.String() && !f.issued[n.String()] && n.String() != f.foreign.String() {
+			return n
+		}
+	}
+	return nil
+}
+
 // ---------------------------------------------------------------------------
 // one case
 
@@ -568,6 +605,12 @@ func run(c caseT, test string) (v verdict) {
 		token = f.unknownToken(c.Seed)
 	case "foreign":
 		token = f.foreign
+	case "near-miss":
+		token = f.nearMiss(c.Seed)
+		if token == nil {
+			v.infra = "no near-miss token available"
+			return
+		}
 	case "closed", "not-activated":
 		cs, err := f.raw.createSession()
 		if err != nil {
